@@ -89,8 +89,8 @@ func (m *DefaultInterfaceMocker) Apply(callback interface{}) {
 	if m.method == "" {
 		panic("method is empty")
 	}
-	m.when = nil
 	m.applyByIFaceMethod(m.ctx, m.iFace, m.method, callback, nil)
+	m.when = nil
 }
 
 // As 将接口方法 mock 为实际的接收体方法
